@@ -6,6 +6,7 @@ from ..hier import HDeck, HCell, Tr
 from ..runner import Scn, verdict, sha, Vacuous
 
 ID = 'C05'
+DECORATE = True
 LEVEL = 'model_checking'
 RULE = ('E1 enumeration of universe trees: depth 1-3, 2 or 3 cells per universe split by planes, one '
         'universe reused in two containers (same / different / one transformation), per-level '
